@@ -4,7 +4,7 @@ CONSTANTS
   Roles = {"r1", "r2"}
   KeyShapes <- SmallShapes
   ClientRoleChoices <- ClientChoicesSmall
-  Peers = {"untrusted", "trusted"}
+  Peers = {"untrusted", "trusted", "neighbour"}
   Xffs = {"none", "one"}
   TlsIds = {"fp", "ca", "canoeku", "unk", "none"}
   HdrIds = {"fp", "ca", "none", "bad"}
